@@ -87,6 +87,8 @@ ATOMS = {
     "fstring_repr": dict(codes=[], enable=["use_fstrings"], lines=["print(\"%r and %s {n}\" % (q, p))"], simple=True),
     "fstring_braces": dict(codes=[], enable=["use_fstrings"], lines=["print(\"{{%s}} {n}\" % q)"], simple=True),
     "fstring_attr": dict(codes=[], enable=["use_fstrings"], lines=["print(\"%s/%s {n}\" % (q.upper(), pair[0]))"], simple=True),
+    "missing_f_ml": dict(codes=["missing_f"], enable=["missing_f"], lines=["print(", "    \"{{p}} is missing {n}\",", "    q,", ")"], simple=False, fix=True),
+    "unused_comp_ml": dict(codes=["unused_variable"], lines=["print([", "    None", "    for cv_{n} in range({n})", "])"], simple=False, fix=True),
     "missing_f_fmt": dict(codes=[], enable=["missing_f"], lines=["print(\"{{p!r:>5}} and {{q}} {n}\")"], simple=True),
     "missing_f_call": dict(codes=[], enable=["missing_f"], lines=["print(\"{{p}} {n}\".format(p=q))"], simple=True),
     "comp_twice": dict(codes=["unused_variable"], lines=["print([None for cv_{n} in range(2)], [None for cv_{n} in range(3)])"], simple=True, fix=True),
@@ -110,6 +112,10 @@ ASYNQ_ATOMS = {
     "unnecessary": ["ye_{n} = yield fetch.asynq({n})", "mid_{n} = p + {n}", "yf_{n} = yield fetch.asynq(mid_{n})", "print(ye_{n}, yf_{n})"],
     "task_needs_yield": ["fetch.asynq(p + {n})"],
     "task_needs_yield_kw": ["fetch.asynq(x={n})"],
+    "task_needs_yield_ml": ["fetch.asynq(", "    p + {n}", ")"],
+    "task_needs_yield_ml2": ["fetch.asynq(takes_two(", "    p, {n}))"],
+    "impure_call_ml": ["print(fetch(", "    p + {n},", "))"],
+    "dup_ml2": ["yk_{n} = yield fetch.asynq({n})", "yl_{n} = yield fetch.asynq(", "    p,", ")", "print(yk_{n}, yl_{n})"],
     "impure_call": ["print(fetch(p + {n}))"],
     "impure_call_nested": ["print(takes_two(fetch({n}), fetch(p)))"],
     "dup_nested": ["if p:", "    yg_{n} = yield fetch.asynq({n})", "    yh_{n} = yield fetch.asynq(p)", "    print(yg_{n}, yh_{n})"],
@@ -245,7 +251,9 @@ class Gen:
         if skeleton == "async_def":
             n = self.next_n()
             self.meta["atoms"].append("asynq:missing_await")
-            return ["async def co%d(p: int = 3) -> None:" % k, "    aio_fetch(p + %d)" % n, "    print(p)"]
+            if r.chance(0.5):
+                return ["async def co%d(p: int = 3) -> None:" % k, "    aio_fetch(p + %d)" % n, "    print(p)"]
+            return ["async def co%d(p: int = 3) -> None:" % k, "    if p:", "        aio_fetch(", "            p + %d" % n, "        )", "    print(p)"]
         body = []
         for _ in range(r.randint(1, 2) if skeleton != "method" else 1):
             sk = skeleton if skeleton not in ("method", "after_decorator") else r.choice(["plain", "only_stmt_of_if", "for_body"])
